@@ -9,7 +9,7 @@ KINDS = {
     "dummy_SST": ["dc", "ds"], "dummy_STG": ["dc", "ds"], "dummy_ID": ["dc", "ds"],
 }
 FACTORS = ["1", "1.5", "2", "3.7"]
-MODELLED = ("co", "st", "pr", "dummy_GR", "dummy_CO", "dummy_PR", "dummy_ST", "dummy_SST", "dummy_STG", "dummy_ID")   # kinds with a Lean model replayed call by call (buffered solvers: Model/Dyn.lean; recompute wrapper: store + static solver programs)
+MODELLED = ("co", "st", "pr", "co_att", "st_att", "dummy_GR", "dummy_CO", "dummy_PR", "dummy_ST", "dummy_SST", "dummy_STG", "dummy_ID")   # kinds with a Lean model replayed call by call (buffered solvers: Model/Dyn.lean; attack-assumption variants: Model/DynAtt.lean; recompute wrapper: store + static solver programs)
 
 
 def impl_stream(impl):
